@@ -521,7 +521,7 @@ non-trivial = at least one add_version was answered ExpectedParentVersion; disti
     e.campaign(
         "races-real-backends",
         "the same race phases with every replica on its own handle of a real backend: local server (one SQLite directory), object-store server (interleaved at single store requests), HTTP client against the harness protocol server; all syncs must succeed, replicas converge to the replay of the chain read through a fresh handle; non-trivial = a version was rejected",
-        e.tier.pick(1000, 60_000),
+        e.tier.pick(1000, 20_000),
         || real_strategy(&[0, 1, 2]),
         |c| serde_json::json!({"backend": (["local", "object-store", "http", "git-remote"][c.backend as usize % 4]), "race": render(&c.race)}),
         check_race_real,
@@ -531,7 +531,7 @@ non-trivial = at least one add_version was answered ExpectedParentVersion; disti
     e.campaign(
         "races-git-remote",
         "as races-real-backends, through the git server with a bare remote and one clone per replica (interleaved at whole Server requests)",
-        e.tier.pick(3, 150),
+        e.tier.pick(3, 60),
         || real_strategy_git(),
         |c| serde_json::json!({"backend": "git-remote", "race": render(&c.race)}),
         check_race_real,
@@ -541,7 +541,7 @@ non-trivial = at least one add_version was answered ExpectedParentVersion; disti
     e.campaign(
         "races-multibatch",
         "as 'races' with pending changes above the batching threshold in the prior history",
-        e.tier.pick(300, 6000),
+        e.tier.pick(300, 3000),
         || race_strategy(3, 4, 4),
         render,
         check_race,
